@@ -75,12 +75,23 @@ def avg_case(rng, nops):
             told.setdefault(k, v)
             lines.append(f"avg tell {k} {fb(v)}")
             outs.append("ok " + avg_obs(l))
-        elif r < 0.6:
+        elif r < 0.56:
+            # a batch with repeated seeds and seeds that already have a value (merged runs with overlapping seed ranges)
+            ks = [rng.choice([rng.randrange(0, 12), rng.randrange(0, 40)]) for _ in range(rng.choice([2, 3, 6]))]
+            if rng.random() < 0.5:
+                ks.append(ks[0])
+            vs = [rand_value(rng, dist) for _ in ks]
+            l.tell_many(list(ks), list(vs))
+            for k, v in zip(ks, vs):
+                told.setdefault(k, v)
+            lines.append(f"avg tell_many {','.join(map(str, ks))} {','.join(fb(v) for v in vs)}")
+            outs.append("ok " + avg_obs(l))
+        elif r < 0.62:
             k = rng.randrange(0, 30)
             l.tell_pending(k)
             lines.append(f"avg tell_pending {k}")
             outs.append("ok " + avg_obs(l))
-        elif r < 0.67:
+        elif r < 0.68:
             l.remove_unfinished()
             lines.append("avg remove_unfinished")
             outs.append("ok " + avg_obs(l))
